@@ -22,6 +22,8 @@ import vlib, k2, k2as
 LEVEL = "translation_validation"
 CONFIGS = ["plain17", "plain20", "dbg17", "dbg20", "vis17", "vis20", "dbgvis17", "dbgvis20"]
 DBG = ["dbg17", "dbg20", "dbgvis17", "dbgvis20"]
+# development only (mutation runs on a private copy of the repository): VERIF_C20_CONFIGS=dbg17,dbgvis17 restricts the matrix
+_ONLY = [c for c in os.environ.get("VERIF_C20_CONFIGS", "").split(",") if c]
 
 L0, L1, L2 = ("leaf", 0), ("leaf", 1), ("leaf", 2)
 AS_CORPUS = [   # every adaptor of the calculus at least once, inline and asynchronous children, internal just of done_as_optional
@@ -46,12 +48,12 @@ WAIT_CORPUS = SW_CORPUS + [("wall", ("swhen", L0, L1), L2)]
 TASK_CORPUS = SW_CORPUS[:4]
 
 
-def _build(chk, cases_by_tu, cfg, mode, tag):
+def _build(chk, cases_by_tu, cfg, mode, tag, pure=()):
     cd = vlib.cache_dir()
     gen_dir = os.path.join(cd, "k2src"); os.makedirs(gen_dir, exist_ok=True)
     jobs = []
-    for cases in cases_by_tu:
-        src = k2as.emit_tu(cases, mode)
+    for ti, cases in enumerate(cases_by_tu):
+        src = k2as.emit_tu(cases, mode, ti in pure)
         h = hashlib.sha256(src.encode()).hexdigest()[:12]
         p = os.path.join(gen_dir, "%s_%s.cpp" % (tag, h))
         if not os.path.exists(p):
@@ -59,13 +61,13 @@ def _build(chk, cases_by_tu, cfg, mode, tag):
         jobs.append(("%s_%s" % (tag, h), cfg, p, "", True))
     built = vlib.build_many(jobs)
     out = []
-    for j, cases in zip(jobs, cases_by_tu):
+    for ti, (j, cases) in enumerate(zip(jobs, cases_by_tu)):
         exe, err = built[(j[0], j[1])]
         if err:
             rp = chk.replay_file("as_build_" + j[0], {"kind": "build-failure", "tu": j[2], "error": err[-3000:]})
             chk.violation("as/build/%s" % cfg, rp, no_input=True, text="async-stack TU does not compile (%s): %s" % (cfg, err[-300:].replace("\n", " ")))
             continue
-        out.append((exe, cases))
+        out.append((exe, cases, ti in pure))
     return out
 
 
@@ -84,20 +86,24 @@ def asyncstack_tie(chk):
     st = chk.cov.setdefault("asyncstack", {"programs": 0, "runs": 0, "observations": 0, "model_replays": 0,
                                            "snapshots_compared": 0, "sync_wait_runs": 0, "task_runs": 0, "traces_checked": 0,
                                            "distinct_programs_replayed": 0, "stalecache_reproduced": 0, "per_configuration": {}})
-    # the random programs are the same in every configuration
+    # the K2 programs of the first half (same generator state as k2.run_k2: same expressions as in the NDEBUG
+    # configurations), with K2's own inline senders ("pure"), plus the async-stack corpus with observing inline leaves
+    krng = random.Random(chk.seed * 7919 + 17)
     rtus = []
-    for _ in range(1 if quick else 6):
+    for _ in range(2 if quick else 12):
         cases = []
         for _ in range(8):
-            g = k2.Gen(rng); cases.append(g.expr(rng.randint(2, 8)))
+            g = k2.Gen(krng); cases.append(g.expr(krng.randint(2, 8)))
         rtus.append(cases)
-    tus = [k2.CORPUS, AS_CORPUS] + rtus
+    tus = [k2.CORPUS] + rtus + [AS_CORPUS]
+    pure = set(range(len(tus) - 1))
     scripts = {}
     for cases in tus:
         for e in cases:
             scripts[k2.to_model(e)] = k2.gen_scripts(rng, e, 6 if quick else 24)
     wscripts = {k2.to_model(e): _wait_scripts(rng, e, 3 if quick else 10) for e in WAIT_CORPUS}
     distinct = set()
+    per_cfg_calc = st.setdefault("calc_traces_compared", {})
 
     def violation(kind, cfg, e, pre, sc, verdict, io, exe, line, info, mode):
         chk.cov["disagreements_checked"] += 1
@@ -111,9 +117,11 @@ def asyncstack_tie(chk):
         chk.violation(key, rp, text="[%s %s] %s | %s | %s" % (cfg, mode, k2.to_model(e), sc, verdict[:400]))
 
     for cfg in DBG:
+        if _ONLY and cfg not in _ONLY:
+            continue
         per = st["per_configuration"].setdefault(cfg, {"runs": 0, "ok": 0})
         # ---------------- plain K2 runs: model replay + monitors (+ async_trace with visitation) + Calc trace
-        for exe, cases in _build(chk, tus, cfg, "plain", "k2as" + cfg):
+        for exe, cases, is_pure in _build(chk, tus, cfg, "plain", "k2as" + cfg, pure):
             lines, meta = [], []
             for i, e in enumerate(cases):
                 st["programs"] += 1
@@ -124,12 +132,13 @@ def asyncstack_tie(chk):
             pend = []
             for (e, pre, sc), io, line, co in zip(meta, iout, lines, cal):
                 st["runs"] += 1; per["runs"] += 1
-                t, _ = k2as.tree_of(e)
+                t, _ = k2as.tree_of(e, False, is_pure)
                 if io.startswith("CRASH"):
                     violation("crash", cfg, e, pre, sc, "crash: " + io[:300], io, exe, line, None, "plain"); continue
                 # first half for free: the trace without the async-stack records equals the Calc model's
                 body, _, tail = io.partition(" # ")
                 plain = ";".join(x for x in body.split(";") if not x.startswith("as ")) + " # " + tail
+                per_cfg_calc[cfg] = per_cfg_calc.get(cfg, 0) + 1
                 if k2.canon(plain) != k2.canon(co) or k2.monitor(plain):
                     violation("calc", cfg, e, pre, sc, "calc: trace differs from the Calc model: %s vs %s" % (k2.canon(plain)[:150], k2.canon(co)[:150]),
                               io, exe, line, None, "plain"); continue
@@ -144,8 +153,8 @@ def asyncstack_tie(chk):
             for (e, pre, sc, io, line, info), mo in zip(pend, mout):
                 st["model_replays"] += 1
                 v = k2as.compare_with_model(info, mo)
-                if not v and "roots=0" in io and not any(o.what == "complete" for (_, _, o) in info["expected"]):
-                    # nothing completed: every started operation state is alive; its frame's cached stackRoot still
+                if not v and "roots=0" in io and "(C " not in info["program"][0]:
+                    # no completion bracket at all: every started operation state is alive; its frame's cached stackRoot still
                     # names the destroyed root of its start bracket (C20_stackroot_cache_cleared_refuted), as in the model
                     if info["stalecache"] != info["model_stalecache"]:
                         v = "stalecache: %d frames with a stale stackRoot, the model predicts %d" % (info["stalecache"], info["model_stalecache"])
@@ -162,7 +171,7 @@ def asyncstack_tie(chk):
                 if nontriv and cfg == "dbg17":
                     chk.sample({"asyncstack": k2.to_model(e), "script": sc, "program": info["program"][0][:300]}, limit=12)
         # ---------------- under sync_wait (initial_stack_root path), two threads
-        for exe, cases in _build(chk, [WAIT_CORPUS], cfg, "wait", "k2asw" + cfg):
+        for exe, cases, _p in _build(chk, [WAIT_CORPUS], cfg, "wait", "k2asw" + cfg):
             lines, meta = [], []
             for i, e in enumerate(cases):
                 for pre, sc in wscripts[k2.to_model(e)]:
@@ -193,7 +202,7 @@ def asyncstack_tie(chk):
                     chk.sample({"asyncstack_sync_wait": k2.to_model(e), "script": sc, "program": [p[:200] for p in info["program"]]}, limit=14)
         # ---------------- C++20: a task<> awaiting the expression (monitors only)
         if cfg.endswith("20"):
-            for exe, cases in _build(chk, [TASK_CORPUS], cfg, "task", "k2ast" + cfg):
+            for exe, cases, _p in _build(chk, [TASK_CORPUS], cfg, "task", "k2ast" + cfg):
                 lines, meta = [], []
                 for i, e in enumerate(cases):
                     for pre, sc in wscripts[k2.to_model(e)]:
@@ -229,11 +238,27 @@ def run(chk, replay=None):
     quick = chk.tier == "quick"
     per = {}
     for cfg in CONFIGS:
+        if cfg in DBG or (_ONLY and cfg not in _ONLY):
+            continue      # the debug configurations run the same expressions through harness/k2as.hpp below
+                          # (k2.hpp leaves its stop source on the stack: ~inplace_stop_source asserts when a script
+                          # leaves the operation pending), compared with the same Calc model trace
+        lib, err = vlib.build_lib(cfg)
+        if err:
+            rp = chk.replay_file("config_" + cfg, {"kind": "build-failure", "configuration": cfg, "flags": vlib.CONFIGS[cfg][1],
+                                                    "error": err[-3000:], "replay": "g++ %s -c %s/source/async_auto_reset_event.cpp -o /dev/null" % (
+                                                        vlib._cxx_flags(cfg), vlib.REPO)})
+            hdr = re.findall(r"include/unifex/([\w/]+\.hpp):\d+:\d+: error", err)
+            chk.violation("config/%s/library-does-not-compile" % ("visitation-without-async-stacks" if cfg.startswith("vis") else cfg), rp,
+                          text="the library does not compile in configuration %s (%s): %s" % (cfg, vlib.CONFIGS[cfg][1], ", ".join(sorted(set(hdr))) or err[-200:]))
+            per[cfg] = 0
+            continue
         before = chk.cov["traces_validated_against_impl"]
         k2.run_k2(chk, n_tus=2 if quick else 12, cases_per_tu=8, scripts_per_case=12 if quick else 40, cfg=cfg, tag="k2" + cfg)
         per[cfg] = chk.cov["traces_validated_against_impl"] - before
-    chk.cov["per_configuration_traces_equal_to_model"] = per
     asyncstack_tie(chk)
+    for cfg in DBG:
+        per[cfg] = chk.cov["asyncstack"]["calc_traces_compared"].get(cfg, 0)
+    chk.cov["per_configuration_traces_equal_to_model"] = per
     chk.cov["programs"] = chk.cov.get("k2", {}).get("programs", 0) + chk.cov["asyncstack"]["programs"]
     chk.cov["explanation"] = ("translation validation: 8 build configurations against one model trace (sample: quick = corpus + 16 generated "
                               "expressions x 14 scripts per configuration); async-stack: theorems for all runs + snapshot tie in the 4 debug configurations")
